@@ -116,6 +116,11 @@ def main():
             return 2
     res = units.run_units(tu, us, wd, jobs=a.jobs)
     kf = known_findings()
+    if os.environ.get("JPV_DUMP"):
+        with open(os.environ["JPV_DUMP"], "w") as fh:
+            for r in res:
+                for f in r["failed"]:
+                    fh.write("%s :: %s\n" % (r["unit"].label, " :: ".join(map(str, f))))
     violations, undec, known_hits = [], [], []
     global restrict_notes
     restrict_notes = []
